@@ -304,6 +304,7 @@ type Finding struct {
 
 type FindingsFile struct {
 	Findings []Finding `json:"findings"`
+	Fixed    []string  `json:"fixed"` // "fixed: property=<id> <commit> <what failed>" - informational, suppresses nothing
 }
 
 func LoadFindings(path string) ([]Finding, error) {
